@@ -4,7 +4,7 @@
 package okex
 
 //@ func (*Handler).SyncGenesisHeader
-//@   property C18
+//@   property C18, C19
 //@   mode abstract
 //@   modifies Store
 //@   requires native != nil && native.tx != nil
@@ -16,3 +16,33 @@ package okex
 //@   callsite[c18-operator] ValidateOwner#1 requires arg1 == gop
 //@   -- installing a trust root changes storage only with the operator's witness
 //@   ensures[c18-witness] Store != old(Store) ==> wit
+//@   ghost var cid uint64 = 0
+//@   set after "if err := param.Deserialization(common.NewZeroCopySource(native.GetInput())); err != nil" : cid := param.ChainID
+//@   -- C19: the trust root is installed only if none was installed, and a later attempt fails without touching state
+//@   ensures[c19-once] err == nil ==> old(Store)[epochKey(cid)] == None
+//@   ensures[c19-rejected] old(Store)[epochKey(cid)] != None ==> err != nil && Store == old(Store)
+
+// ---- epoch switch info: the trust root of this light client (C19) -------------------------------------
+//@ func GetEpochSwitchInfo
+//@   property C19
+//@   mode abstract
+//@   requires service != nil
+//@   modifies nothing
+//@   ensures r1 == nil ==> r0 != nil
+//@   -- nothing stored: the empty raw item does not decode
+//@   ensures Store[epochKey(chainId)] == None ==> r1 != nil
+//@   -- storage invariant (assumed): a stored record was written by PutEpochSwitchInfo and decodes (C04 round trip)
+//@   assumes Store[epochKey(chainId)] != None ==> r1 == nil
+
+//@ func PutEpochSwitchInfo
+//@   property C19
+//@   mode abstract
+//@   requires service != nil && info != nil
+//@   modifies Store
+//@   ensures Store == upd(old(Store), epochKey(chainId), Store[epochKey(chainId)]) && Store[epochKey(chainId)] != None
+
+//@ func notifyEpochSwitchInfo
+//@   property C19
+//@   mode abstract
+//@   requires native != nil
+//@   modifies native.notifications
